@@ -62,6 +62,9 @@ type Pool struct {
 	Discard      bool      `json:"discard_overflow"`
 	ShotMaxUs    int       `json:"shot_max_us"`
 	PreStartMs   int       `json:"prestart_ms"` // >0: shared profile started this long in the past (forces overdue tokens)
+	// Ramp: the startup profile is Instances at once and then 5 more per second for 3 s, so that it
+	// is still releasing instances when the (small) ammo supply runs out under a paced profile
+	Ramp bool `json:"startup_ramp,omitempty"`
 	Procs        int       `json:"gomaxprocs"`
 	Seed         int64     `json:"seed"`
 }
@@ -129,6 +132,17 @@ func genPool(rng *rand.Rand) Pool {
 	if p.Ammo < 0 {
 		p.Ammo = 0
 	}
+	if rng.Intn(8) == 0 {
+		// ammo runs out under a paced profile while instances are still being started
+		p.Ramp, p.StartupConst, p.PreStartMs = true, false, 0
+		p.Instances = 2 + rng.Intn(4)
+		p.RPS = SchedSpec{Kind: "const", A: float64(20 + rng.Intn(40)), DurMs: 1500}
+		if rng.Intn(2) == 0 {
+			p.RPS = SchedSpec{Kind: "line", A: float64(10 + rng.Intn(20)), B: float64(40 + rng.Intn(40)), DurMs: 1500}
+		}
+		p.AmmoClass = "ramp"
+		p.Ammo = 6 + rng.Intn(14)
+	}
 	return p
 }
 
@@ -164,6 +178,9 @@ func runPool(res *vkit.Result, p Pool) {
 	var startup core.Schedule = schedule.NewOnce(int64(p.Instances))
 	if p.StartupConst {
 		startup = schedule.NewConst(float64(p.Instances)*20, 50*time.Millisecond)
+	}
+	if p.Ramp {
+		startup = schedule.NewComposite(schedule.NewOnce(int64(p.Instances)), schedule.NewConst(5, 3*time.Second))
 	}
 	m := vkit.NewMetrics()
 	eng := engine.New(vkit.NopLog(), m, engine.Config{Pools: []engine.InstancePoolConfig{{
@@ -282,10 +299,13 @@ var seeds = []Pool{
 	{Instances: 3, PerInstance: false, RPS: SchedSpec{Kind: "once", N: 40}, Ammo: 40, AmmoClass: "T", Discard: false, PreStartMs: 2500, Seed: 6},
 	{Instances: 1, PerInstance: true, RPS: SchedSpec{Kind: "const", A: 0, DurMs: 20}, Ammo: 3, AmmoClass: "T+N", Seed: 7},
 	{Instances: 5, PerInstance: false, RPS: SchedSpec{Kind: "once", N: 0}, Ammo: 3, AmmoClass: "T+N", Seed: 8},
+	{Instances: 3, PerInstance: false, RPS: SchedSpec{Kind: "const", A: 20, DurMs: 3000}, Ammo: 12, AmmoClass: "ramp", Ramp: true, Seed: 9},
+	{Instances: 3, PerInstance: true, RPS: SchedSpec{Kind: "const", A: 20, DurMs: 3000}, Ammo: 12, AmmoClass: "ramp", Ramp: true, Seed: 10},
+	{Instances: 5, PerInstance: false, RPS: SchedSpec{Kind: "line", A: 10, B: 60, DurMs: 2000}, Ammo: 9, AmmoClass: "ramp", Ramp: true, ShotMaxUs: 2000, Seed: 11},
 }
 
 func main() {
-	res := vkit.NewResult("random mock pools: 1–16 instances, once/const startup, shared or per-instance finite RPS profile (once/const/line/step/composite ≤ ~0.6 s), ammo ∈ {0,1,T−1,T,T+1,T+N,10T}, discard_overflow on/off, shot duration 0–3 ms, GOMAXPROCS ∈ {1,2,4,16}; shared profiles are pre-started ≈2 s in the past in a quarter of the pools so that overdue tokens (discards) occur; distinct = distinct pool descriptions; non-trivial = expected fired+discarded ≥ 2 and at least one instance started")
+	res := vkit.NewResult("random mock pools: 1–16 instances, once/const startup (or a ramp still running when a small ammo supply runs out under a paced profile), shared or per-instance finite RPS profile (once/const/line/step/composite ≤ ~0.6 s), ammo ∈ {0,1,T−1,T,T+1,T+N,10T}, discard_overflow on/off, shot duration 0–3 ms, GOMAXPROCS ∈ {1,2,4,16}; shared profiles are pre-started ≈2 s in the past in a quarter of the pools so that overdue tokens (discards) occur; distinct = distinct pool descriptions; non-trivial = expected fired+discarded ≥ 2 and at least one instance started")
 	rng := vkit.Rand("c03")
 	n := vkit.N(300, 8000)
 	var pools []Pool
